@@ -5,7 +5,7 @@ import sys
 import time
 
 from . import core, engine, roles as roles_mod
-from . import search, nfa, da, ser
+from . import search, nfa, da, ser, cli
 
 TRUSTED = [
     "L1: for a power of two B, x < kB and c < B imply x ^ c < kB; next_power_of_two(n) >= n",
@@ -167,6 +167,13 @@ def run_C15(ctx, R):
     da.rule_build_entry(ctx, R, E.NR, E.BR, rules={"STAT-NS"})
 
 
+def run_C16(ctx, R):
+    cli.rule_cli_args(ctx, R)
+    cli.rule_cli_guard(ctx, R)
+    cli.rule_cli_pats(ctx, R)
+    search.rule_iter_standard(ctx, R, kinds=("find", "nosuffix"), rules={"ITER-OUT", "ITER-HEAD", "LAZY-END", "ITER-STATE"})
+
+
 def run_NFA(ctx, R):
     NR = nfa.NfaRoles(ctx, R)
     nfa.rule_outputs_pass(ctx, R, NR)
@@ -203,6 +210,7 @@ PROPS = {
     "C13": (run_C13, False, "TERM-*"),
     "C14": (run_C14, False, "PURE-* DET-EFFECT PERM-*"),
     "C15": (run_C15, False, "STAT-*"),
+    "C16": (run_C16, True, "CLI-ARGS CLI-GUARD CLI-PATS + the two iterators the tool uses"),
 }
 
 
